@@ -3,19 +3,12 @@ C06 driver: replays a harness trace on the model (correspondence, `MISMATCH`)
 and evaluates the property monitor on the implementation's answers (`MONITOR`).
 -/
 import LndModel.Prelude.Lines
-import LndModel.Prelude.Sha256
-import LndModel.C06.Model
+import LndModel.C06.Sha
+import LndModel.C06.ReleaseDriver
 
 open LndModel LndModel.Lines LndModel.C06
 
 namespace LndModel.C06.Driver
-
-/-- the real one-step function: flip bit `p` (byte `p/8`, bit `p%8`), then SHA-256. -/
-def flipSha (h : Bytes) (p : Nat) : Bytes :=
-  let byteNo := p / 8
-  let bitNo := p % 8
-  let h' := (h.zipIdx).map (fun (b, i) => if i == byteNo then Nat.xor b (2 ^ bitNo) else b)
-  Sha256.sha256 h'
 
 structure St where
   caseId : String := "0"
@@ -184,7 +177,11 @@ def step (s : St) (line : String) : IO St := do
 end LndModel.C06.Driver
 
 open LndModel.C06.Driver in
-def main : IO Unit := do
+def main (args : List String) : IO Unit := do
+  -- stream `release`: fault-injection trace of the lnwallet harness (ReleaseDriver.lean)
+  if args.contains "release" then
+    LndModel.C06.ReleaseDriver.main
+    return
   let s ← LndModel.Lines.foldStdin step {}
   IO.println s!"STAT lines={s.lines}"
   IO.println s!"STAT cases={s.cases}"
